@@ -1,7 +1,5 @@
 (* Facts about histories on shared objects (Alloc/Hist.v):
-   - forgetting the object identities, a step of a history is the value function of Alloc.v applied to the
-     CURRENT values of the allocation it is called on (htrans_erase);
-   - setting a fixed flag in place keeps every allocation of the history accepted (flag_rel_accepted);
+   - setting fixed flags in place keeps every allocation of the history accepted (flag_rel_accepted);
    - hence every call of every admissible history succeeds, returns an accepted refinement of the values its
      target had at that moment (run_hist_ok), a cell flagged fixed is handed over whole by the next call
      (set_fixed_true_not_cut), and the decisions of C12 hold at every reachable state. *)
@@ -13,57 +11,6 @@ Open Scope list_scope.
 Open Scope Qc_scope.
 Local Notation concat := List.concat.
 
-(* ------------------------------------------------------------------ *)
-(* 1. erasing the identities                                           *)
-(* ------------------------------------------------------------------ *)
-Definition erase (r : option (nat * list hcell)) : option (list cell) :=
-  option_map (fun p => hvals (snd p)) r.
-
-Lemma map_snd_combine_seq {A} (l : list A) : forall n, map snd (combine (seq n (List.length l)) l) = l.
-Proof. induction l as [|x l IH]; intro n; cbn; [reflexivity|]. f_equal. apply IH. Qed.
-
-Lemma tag_pieces_vals id next ps : hvals (snd (tag_pieces id next ps)) = ps.
-Proof.
-  unfold tag_pieces, hvals. destruct ps as [|p [|p' ps]]; cbn [snd]; try reflexivity.
-  apply map_snd_combine_seq.
-Qed.
-
-Lemma hmap_step_erase f : forall l next, erase (hmap_step f next l) = concat_opt (map f (hvals l)).
-Proof.
-  induction l as [|[id c] l IH]; intro next; cbn [hmap_step hvals map concat_opt snd]; [reflexivity|].
-  destruct (f c) as [ps|]; [|reflexivity].
-  specialize (IH (fst (tag_pieces id next ps))). fold (hvals l).
-  destruct (hmap_step f (fst (tag_pieces id next ps)) l) as [[n2 rest]|]; cbn in IH; rewrite <- IH; cbn; [|reflexivity].
-  unfold hvals. rewrite map_app. fold (hvals (snd (tag_pieces id next ps))). rewrite tag_pieces_vals. reflexivity.
-Qed.
-
-Lemma hrefine_cells_erase t levels next l :
-  erase (hrefine_cells t levels next l) = refine_cells t levels (hvals l).
-Proof. unfold hrefine_cells, refine_cells. apply hmap_step_erase. Qed.
-Lemma huniform_cells_erase next l : erase (huniform_cells next l) = uniform_cells (hvals l).
-Proof. unfold huniform_cells, uniform_cells. apply hmap_step_erase. Qed.
-
-Lemma happly_cuts_erase f cuts : forall next l,
-  erase (happly_cuts f cuts next l) = apply_cuts f cuts (hvals l).
-Proof.
-  unfold happly_cuts, apply_cuts.
-  assert (G : forall acc,
-    erase (fold_left (fun acc x => match acc with Some (n, cs) => hmap_step (f x) n cs | None => None end) cuts acc) =
-    fold_left (fun acc x => match acc with Some cs => concat_opt (map (f x) cs) | None => None end) cuts (erase acc)).
-  { induction cuts as [|x cuts IH]; intro acc; cbn [fold_left]; [reflexivity|].
-    rewrite IH. f_equal. destruct acc as [[n cs]|]; cbn; [apply hmap_step_erase|reflexivity]. }
-  intros next l. rewrite G. reflexivity.
-Qed.
-
-Lemma hgriddify_cells_erase eps q next l :
-  erase (hgriddify_cells eps q next l) = griddify_cells eps q (hvals l).
-Proof.
-  unfold hgriddify_cells, griddify_cells. destruct (gather_boundaries eps (map crect (hvals l))) as [xc yc].
-  pose proof (happly_cuts_erase (cut_x q) (interior xc) next l) as E.
-  destruct (happly_cuts (cut_x q) (interior xc) next l) as [[n cs]|]; cbn in E; rewrite <- E; [|reflexivity].
-  apply happly_cuts_erase.
-Qed.
-
 Lemma mk_allocation_some aeps cells x : mk_allocation aeps cells = Some x -> x = cells.
 Proof.
   unfold mk_allocation. destruct cells as [|c cells]; [discriminate|].
@@ -71,28 +18,8 @@ Proof.
   intro H. injection H as <-. reflexivity.
 Qed.
 
-Lemma hmk_erase aeps r :
-  erase (hmk aeps r) = match erase r with Some new => mk_allocation aeps new | None => None end.
-Proof.
-  destruct r as [[n hl]|]; [|reflexivity]. unfold erase, hmk. cbn [option_map snd].
-  destruct (mk_allocation aeps (hvals hl)) as [x|] eqn:E; cbn [option_map snd]; [|reflexivity].
-  apply mk_allocation_some in E. subst x. reflexivity.
-Qed.
-
-(* one call on identified cells = the value function on the values *)
-Theorem htrans_erase eps aeps q o next l :
-  erase (htrans eps aeps q o next l) = run_op eps aeps q o (hvals l).
-Proof.
-  destruct o as [t levels| |]; cbn [htrans run_op].
-  - unfold refine. destruct levels as [|lv]; [reflexivity|].
-    rewrite hmk_erase, hrefine_cells_erase. reflexivity.
-  - unfold uniform_refinement_depth. destruct (Nat.eqb (max_depth (hvals l)) (min_depth (hvals l))); [reflexivity|].
-    rewrite hmk_erase, huniform_cells_erase. reflexivity.
-  - unfold griddify. rewrite hmk_erase, hgriddify_cells_erase. reflexivity.
-Qed.
-
 (* ------------------------------------------------------------------ *)
-(* 2. flags do not matter to the constructor                           *)
+(* 1. flags do not matter to the constructor                           *)
 (* ------------------------------------------------------------------ *)
 (* same geometry and occupancy map (only fixed / hard / region / location may differ) *)
 Definition geom_rel (c c' : cell) : Prop :=
@@ -154,24 +81,19 @@ Lemma splittable_set_fixed_false t c :
 Proof. reflexivity. Qed.
 
 (* ------------------------------------------------------------------ *)
-(* 3. the invariant of a history                                       *)
+(* 2. the invariant of a history                                       *)
 (* ------------------------------------------------------------------ *)
-Definition hvalid (aeps : Qc) (s : hstate) : Prop :=
-  hallocs s <> [] /\ Forall (fun l => accepted aeps (hvals l)) (hallocs s).
+Definition hvalid (aeps : Qc) (s : hstate) : Prop := s <> [] /\ Forall (accepted aeps) s.
 
-Lemma hget_in s k : hallocs s <> [] -> In (hget s k) (hallocs s).
+Lemma hget_in (s : hstate) k : s <> [] -> In (hget s k) s.
 Proof.
-  intro H. unfold hget. apply nth_In. apply Nat.mod_upper_bound.
-  destruct (hallocs s); [congruence|discriminate].
+  intro H. unfold hget. apply nth_In. apply Nat.mod_upper_bound. destruct s; [congruence|discriminate].
 Qed.
-Lemma hget_accepted aeps s k : hvalid aeps s -> accepted aeps (hvals (hget s k)).
+Lemma hget_accepted aeps s k : hvalid aeps s -> accepted aeps (hget s k).
 Proof. intros [Hne Hall]. rewrite Forall_forall in Hall. apply Hall. apply hget_in. exact Hne. Qed.
 
 Lemma hinit_valid aeps cells : accepted aeps cells -> hvalid aeps (hinit cells).
-Proof.
-  intro A. unfold hvalid, hinit; cbn [hallocs]. split; [discriminate|]. constructor; [|constructor].
-  unfold hvals. rewrite map_snd_combine_seq. exact A.
-Qed.
+Proof. intro A. split; [discriminate|]. constructor; [exact A|constructor]. Qed.
 
 Definition op_ok_on (eps aeps q : Qc) (o : op) (src new : list cell) : Prop :=
   run_op eps aeps q o src = Some new /\ refines src new /\ accepted aeps new.
@@ -185,15 +107,6 @@ Proof.
   - apply griddify_ok; assumption.
 Qed.
 
-Lemma htrans_ok eps aeps q o next l : 0 <= aeps -> op_admissible o -> accepted aeps (hvals l) ->
-  exists n hl, htrans eps aeps q o next l = Some (n, hl) /\ op_ok_on eps aeps q o (hvals l) (hvals hl).
-Proof.
-  intros Ha Ho Acc. destruct (run_op_ok eps aeps q o _ Ha Ho Acc) as (new & E & R & A).
-  pose proof (htrans_erase eps aeps q o next l) as Er. rewrite E in Er.
-  destruct (htrans eps aeps q o next l) as [[n hl]|]; cbn in Er; [|discriminate].
-  injection Er as <-. exists n, hl. split; [reflexivity|]. split; [exact E|]. split; assumption.
-Qed.
-
 Definition hop_admissible (o : hop) : Prop :=
   match o with HApply _ o' => op_admissible o' | _ => True end.
 
@@ -204,57 +117,62 @@ Definition event_ok (eps aeps q : Qc) (e : hevent) : Prop :=
   match o with
   | HApply _ o' => exists new, ob = ONew (Some new) /\ op_ok_on eps aeps q o' src new
   | HCopy _ => ob = ONew (Some src)
-  | HSetFixed _ _ _ _ => exists fl, ob = OFixed fl
+  | HSetFixed _ _ _ _ _ => (exists fl, ob = OFixed fl) \/ ob = OImpossible
   | HMbr _ t => ob = OBool (must_be_refined t src)
   | HMaxDepth _ => ob = ONat (max_depth src)
   | HNumRect _ => ob = ONat (List.length src)
   | HAreas _ => ob = OAreas (areas_of src)
   end.
 
-Lemma Forall2_map_r {A} (R : A -> A -> Prop) (f : A -> A) l : (forall x, R x (f x)) -> Forall2 R l (map f l).
-Proof. intro H. induction l as [|x l IH]; cbn; constructor; auto. Qed.
-
-Lemma hset_cell_flag id b hc : flag_rel (snd hc) (snd (hset_cell id b hc)).
+Lemma reflag_alloc_flag fl l : Forall2 flag_rel l (reflag_alloc fl l).
 Proof.
-  unfold hset_cell. destruct (Nat.eqb (fst hc) id); cbn [snd]; [right; exists b; reflexivity|left; reflexivity].
-Qed.
-Lemma hset_vals_flag id b l : Forall2 flag_rel (hvals l) (hvals (map (hset_cell id b) l)).
-Proof.
-  unfold hvals. induction l as [|hc l IH]; cbn [map]; constructor; [apply hset_cell_flag|exact IH].
+  unfold reflag_alloc. induction l as [|c l IH]; cbn [map]; constructor; [|exact IH].
+  right. eexists. reflexivity.
 Qed.
 
-Lemma hset_fixed_valid aeps id b s : hvalid aeps s -> hvalid aeps (hset_fixed id b s).
+Lemma flags_ok_reflag c0 b : forall s after, flags_ok c0 b s (reflag after s) = true ->
+  Forall2 (Forall2 flag_rel) s (reflag after s).
 Proof.
-  intros [Hne Hall]. unfold hvalid, hset_fixed; cbn [hallocs]. split.
-  - destruct (hallocs s); [congruence|discriminate].
-  - rewrite Forall_map. eapply Forall_impl; [|exact Hall]. cbn. intros l Hl.
-    eapply flag_rel_accepted; [apply hset_vals_flag|exact Hl].
+  induction s as [|l r IH]; intros after H.
+  - destruct after; cbn; constructor.
+  - destruct after as [|fl after]; cbn [reflag] in *; [discriminate|]. cbn [flags_ok] in H.
+    apply andb_true_iff in H. destruct H as [_ H]. constructor; [apply reflag_alloc_flag|apply IH; exact H].
 Qed.
 
-Lemma hvalid_snoc aeps s n hl : hvalid aeps s -> accepted aeps (hvals hl) -> hvalid aeps (mkH n (hallocs s ++ [hl])).
+Lemma flag_rel_valid aeps s s' : Forall2 (Forall2 flag_rel) s s' -> hvalid aeps s -> hvalid aeps s'.
 Proof.
-  intros [Hne Hall] A. unfold hvalid; cbn [hallocs]. split.
+  intros F [Hne Hall]. split.
+  - destruct F; [congruence|discriminate].
+  - clear Hne. induction F as [|l l' s s' Hl F IH]; [constructor|]. inversion Hall; subst.
+    constructor; [eapply flag_rel_accepted; eauto|auto].
+Qed.
+
+Lemma hvalid_snoc aeps s new : hvalid aeps s -> accepted aeps new -> hvalid aeps (s ++ [new]).
+Proof.
+  intros [Hne Hall] A. split.
   - intro E. apply app_eq_nil in E. destruct E as [_ E]. discriminate.
   - apply Forall_app. split; [exact Hall|]. constructor; [exact A|constructor].
 Qed.
 
 Theorem hstep_ok eps aeps q o s : 0 <= aeps -> hop_admissible o -> hvalid aeps s ->
   hvalid aeps (fst (hstep eps aeps q o s)) /\
-  event_ok eps aeps q (o, hvals (hget s (hop_target o)), snd (hstep eps aeps q o s)).
+  event_ok eps aeps q (o, hget s (hop_target o), snd (hstep eps aeps q o s)).
 Proof.
-  intros Ha Ho V. destruct o as [k o'|k|k x y b|k t|k|k|k]; cbn [hop_target hstep event_ok];
+  intros Ha Ho V. destruct o as [k o'|k|k x y b after|k t|k|k|k]; cbn [hop_target hstep event_ok];
     pose proof (hget_accepted aeps s k V) as Acc.
-  - cbn in Ho. destruct (htrans_ok eps aeps q o' (hnext s) (hget s k) Ha Ho Acc) as (n & hl & E & Ok).
-    rewrite E. cbn [fst snd]. split; [apply hvalid_snoc; [exact V|apply Ok]|].
-    split; [exact Acc|]. exists (hvals hl). split; [reflexivity|exact Ok].
-  - unfold accepted in Acc. rewrite Acc. cbn [fst snd]. split; [apply hvalid_snoc; [exact V|exact Acc]|].
+  - cbn in Ho. destruct (run_op_ok eps aeps q o' (hget s k) Ha Ho Acc) as (new & Ok). pose proof Ok as (E & _ & A).
+    rewrite E. cbn [fst snd]. split; [apply hvalid_snoc; assumption|].
+    split; [exact Acc|]. exists new. split; [reflexivity|exact Ok].
+  - unfold accepted in Acc. rewrite Acc. cbn [fst snd]. split; [apply hvalid_snoc; assumption|].
     split; [exact Acc|reflexivity].
-  - destruct (find (at_centre x y) (hget s k)) as [hc|]; cbn [fst snd].
-    + split; [apply hset_fixed_valid; exact V|]. split; [exact Acc|]. eexists; reflexivity.
-    + split; [exact V|]. split; [exact Acc|]. eexists; reflexivity.
+  - destruct (find (at_centre x y) (hget s k)) as [c0|]; cbn [fst snd]; [|auto].
+    destruct (flags_ok c0 b s (reflag after s)) eqn:F; cbn [andb fst snd]; [|auto].
+    match goal with |- context [if ?c then _ else _] => destruct c end; cbn [fst snd]; [|auto].
+    split; [|split; [exact Acc|left; eexists; reflexivity]].
+    eapply flag_rel_valid; [apply (flags_ok_reflag c0 b); exact F|exact V].
   - cbn [fst snd]. auto.
   - cbn [fst snd]. auto.
-  - cbn [fst snd]. split; [exact V|]. split; [exact Acc|]. unfold hvals. rewrite map_length. reflexivity.
+  - cbn [fst snd]. auto.
   - cbn [fst snd]. auto.
 Qed.
 
@@ -282,34 +200,49 @@ Proof.
 Qed.
 
 (* ------------------------------------------------------------------ *)
-(* 4. what setting a flag does, and what it means for the next call    *)
+(* 3. what setting a flag does, and what it means for the next call    *)
 (* ------------------------------------------------------------------ *)
-Lemma hget_hset id b s k : hget (hset_fixed id b s) k = map (hset_cell id b) (hget s k).
+Lemma cset_fixed_same c : cset_fixed (fixed (crect c)) c = c.
+Proof. destruct c as [[] ? ?]. reflexivity. Qed.
+
+(* the relation between a cell before and after  c0.rect.fixed = b : untouched, or - possibly, if it has the geometry
+   of c0 - flagged b *)
+Definition set_rel (c0 : cell) (b : bool) (c c' : cell) : Prop :=
+  c' = c \/ (c' = cset_fixed b c /\ same_geom c0 c = true).
+
+Lemma flags_ok_rel c0 b : forall s after, flags_ok c0 b s (reflag after s) = true ->
+  Forall2 (Forall2 (set_rel c0 b)) s (reflag after s).
 Proof.
-  unfold hget, hset_fixed; cbn [hallocs]. rewrite map_length.
-  change (@nil hcell) with (map (hset_cell id b) []) at 1. apply map_nth.
+  induction s as [|l r IH]; intros after H.
+  - destruct after; cbn; constructor.
+  - destruct after as [|fl after]; cbn [reflag] in *; [discriminate|]. cbn [flags_ok] in H.
+    apply andb_true_iff in H. destruct H as [H H2]. apply andb_true_iff in H. destruct H as [_ H1].
+    constructor; [|apply IH; exact H2]. clear IH H2. unfold reflag_alloc in *.
+    induction l as [|c l IHl]; cbn [map combine forallb] in *; [constructor|].
+    apply andb_true_iff in H1. destruct H1 as [Hc H1]. constructor; [|apply IHl; exact H1].
+    cbn [fst snd] in Hc. unfold flag_ok in Hc. cbn [cset_fixed set_fixed crect fixed] in Hc.
+    apply orb_true_iff in Hc. destruct Hc as [Hc|Hc].
+    + left. apply Bool.eqb_prop in Hc. rewrite Hc. apply cset_fixed_same.
+    + right. apply andb_true_iff in Hc. destruct Hc as [G Hb]. apply Bool.eqb_prop in Hb. rewrite Hb. split; [reflexivity|exact G].
 Qed.
 
-Lemma accepted_nonempty aeps cells : accepted aeps cells -> cells <> [].
-Proof. intro H. apply accepted_iff in H. apply H. Qed.
-
-(* c.rect.fixed = b for the cell c of A[k] with centre (x, y): the state afterwards is the state before with the
-   flag of every cell that shares the Rectangle object set to b - nothing else changes, in any allocation *)
-Theorem hset_fixed_spec eps aeps q s k x y b hc : find (at_centre x y) (hget s k) = Some hc ->
-  fst (hstep eps aeps q (HSetFixed k x y b) s) = hset_fixed (fst hc) b s /\
-  In hc (hget s k) /\ centre_of (snd hc) = (x, y) /\
-  In (fst hc, cset_fixed b (snd hc)) (hget (hset_fixed (fst hc) b s) k) /\
-  Forall2 (Forall2 (fun c c' : hcell => fst c' = fst c /\
-                      (if Nat.eqb (fst c) (fst hc) then snd c' = cset_fixed b (snd c) else snd c' = snd c)))
-          (hallocs s) (hallocs (hset_fixed (fst hc) b s)).
+(* c.rect.fixed = b for the cell c of A[k] with centre (x, y): whichever allocations share that Rectangle object,
+   afterwards that cell of A[k] carries the flag b, and every cell of every allocation is as it was or - possibly,
+   if it has the geometry of c - carries the flag b too; nothing else changes *)
+Theorem hset_fixed_spec eps aeps q s k x y b after s' fl :
+  hstep eps aeps q (HSetFixed k x y b after) s = (s', OFixed fl) ->
+  fl = hfixed s' /\
+  exists c0 c1, find (at_centre x y) (hget s k) = Some c0 /\
+    find (at_centre x y) (hget s' k) = Some c1 /\ fixed (crect c1) = b /\
+    Forall2 (Forall2 (set_rel c0 b)) s s'.
 Proof.
-  intro E. pose proof (find_some _ _ E) as [Hin Hat]. split; [|split; [exact Hin|split; [|split]]].
-  - cbn [hstep]. rewrite E. reflexivity.
-  - unfold at_centre in Hat. apply andb_true_iff in Hat. destruct Hat as [A B]. qb2p. unfold centre_of. congruence.
-  - rewrite hget_hset. apply in_map_iff. exists hc. split; [|exact Hin].
-    unfold hset_cell. rewrite Nat.eqb_refl. reflexivity.
-  - unfold hset_fixed; cbn [hallocs]. apply Forall2_map_r. intro l. apply Forall2_map_r. intro c.
-    unfold hset_cell. destruct (Nat.eqb (fst c) (fst hc)); cbn [fst snd]; split; reflexivity.
+  cbn [hstep]. destruct (find (at_centre x y) (hget s k)) as [c0|]; [|discriminate].
+  destruct (flags_ok c0 b s (reflag after s)) eqn:F; cbn [andb]; [|discriminate].
+  destruct (find (at_centre x y) (hget (reflag after s) k)) as [c1|] eqn:E1; [|discriminate].
+  destruct (Bool.eqb (fixed (crect c1)) b) eqn:B; [|discriminate].
+  intro H. injection H as <- <-. split; [reflexivity|]. exists c0, c1.
+  split; [reflexivity|]. split; [exact E1|]. split; [apply Bool.eqb_prop; exact B|].
+  apply flags_ok_rel. exact F.
 Qed.
 
 Lemma Forall2_nth_error_l {A B} (R : A -> B -> Prop) l1 l2 : Forall2 R l1 l2 ->
@@ -321,35 +254,29 @@ Proof.
   - apply IH. exact Hn.
 Qed.
 
-(* after c.rect.fixed = True for a cell c of A[k], whatever refinement operation is applied to A[k] next succeeds
-   and hands that cell over whole (its pieces are the cell itself), whatever was asked of A[k] before *)
-Theorem set_fixed_true_not_cut eps aeps q s k x y o' hc : 0 <= aeps -> hvalid aeps s -> op_admissible o' ->
-  find (at_centre x y) (hget s k) = Some hc ->
-  let s1 := fst (hstep eps aeps q (HSetFixed k x y true) s) in
-  let src := hvals (hget s1 k) in
-  let c := cset_fixed true (snd hc) in
-  fixed (crect c) = true /\
-  exists j new parts, nth_error src j = Some c /\
+(* after c.rect.fixed = True for the cell c of A[k] at (x, y), whatever refinement operation is applied to A[k] next
+   succeeds and hands that cell over whole (its pieces are the cell itself), whatever was asked of A[k] before *)
+Theorem set_fixed_true_not_cut eps aeps q s k x y after o' s1 fl : 0 <= aeps -> hvalid aeps s -> op_admissible o' ->
+  hstep eps aeps q (HSetFixed k x y true after) s = (s1, OFixed fl) ->
+  exists c j new parts, nth_error (hget s1 k) j = Some c /\ at_centre x y c = true /\ fixed (crect c) = true /\
     snd (hstep eps aeps q (HApply k o') s1) = ONew (Some new) /\
-    new = concat parts /\ Forall2 cell_refines src parts /\ nth_error parts j = Some [c].
+    new = concat parts /\ Forall2 cell_refines (hget s1 k) parts /\ nth_error parts j = Some [c].
 Proof.
-  intros Ha V Ho E s1 src c. split; [reflexivity|].
-  destruct (hset_fixed_spec eps aeps q s k x y true hc E) as (Hs & _ & _ & Hin & _).
+  intros Ha V Ho E.
   assert (V1 : hvalid aeps s1).
-  { unfold s1. apply (hstep_ok eps aeps q (HSetFixed k x y true) s Ha I V). }
-  pose proof (hget_accepted aeps s1 k V1) as Acc. fold src in Acc.
-  destruct (htrans_ok eps aeps q o' (hnext s1) (hget s1 k) Ha Ho Acc) as (n & hl & Et & (Er & (parts & F & Ec) & A)).
-  assert (Hc : In c src).
-  { unfold src, s1. rewrite Hs. unfold hvals. apply in_map_iff. exists (fst hc, c). split; [reflexivity|exact Hin]. }
-  apply In_nth_error in Hc. destruct Hc as (j & Hj).
-  exists j, (hvals hl), parts. split; [exact Hj|]. split; [cbn [hstep]; rewrite Et; reflexivity|].
-  split; [exact Ec|]. split; [exact F|].
+  { pose proof (hstep_ok eps aeps q (HSetFixed k x y true after) s Ha I V) as [V1 _]. rewrite E in V1. exact V1. }
+  destruct (hset_fixed_spec _ _ _ _ _ _ _ _ _ _ _ E) as (_ & c0 & c1 & _ & E1 & Hf & _).
+  pose proof (find_some _ _ E1) as [Hin Hat]. apply In_nth_error in Hin. destruct Hin as (j & Hj).
+  pose proof (hget_accepted aeps s1 k V1) as Acc.
+  destruct (run_op_ok eps aeps q o' (hget s1 k) Ha Ho Acc) as (new & Er & (parts & F & Ec) & A).
+  exists c1, j, new, parts. split; [exact Hj|]. split; [exact Hat|]. split; [exact Hf|].
+  split; [cbn [hstep]; rewrite Er; reflexivity|]. split; [exact Ec|]. split; [exact F|].
   destruct (Forall2_nth_error_l _ _ _ F j _ Hj) as (ps & Hps & R). rewrite Hps. f_equal.
-  apply (cr_fixed _ _ R). reflexivity.
+  apply (cr_fixed _ _ R). exact Hf.
 Qed.
 
 (* ------------------------------------------------------------------ *)
-(* 5. the decisions of C12 at every state of a history                 *)
+(* 4. the decisions of C12 at every state of a history                 *)
 (* ------------------------------------------------------------------ *)
 Lemma refine_some_cells aeps t levels cells new : refine aeps t levels cells = Some new ->
   (0 < levels)%nat /\ refine_cells t levels cells = Some new.
@@ -361,11 +288,11 @@ Qed.
 
 Theorem hist_mbr_iff_changes eps aeps q s k t levels : 0 <= aeps -> hvalid aeps s -> (0 < levels)%nat ->
   exists new, snd (hstep eps aeps q (HApply k (OpRefine t levels)) s) = ONew (Some new) /\
-    (snd (hstep eps aeps q (HMbr k t) s) = OBool true <-> new <> hvals (hget s k)).
+    (snd (hstep eps aeps q (HMbr k t) s) = OBool true <-> new <> hget s k).
 Proof.
   intros Ha V Hl. pose proof (hget_accepted aeps s k V) as Acc.
-  destruct (htrans_ok eps aeps q (OpRefine t levels) (hnext s) (hget s k) Ha Hl Acc) as (n & hl & E & (Er & _ & _)).
-  exists (hvals hl). split; [cbn [hstep]; rewrite E; reflexivity|].
+  destruct (run_op_ok eps aeps q (OpRefine t levels) (hget s k) Ha Hl Acc) as (new & Er & _ & _).
+  exists new. split; [cbn [hstep]; rewrite Er; reflexivity|].
   cbn [run_op] in Er. apply refine_some_cells in Er. destruct Er as [_ Er].
   pose proof (mbr_iff_changes t levels _ _ (accepted_wf _ _ Acc) Hl Er) as M.
   cbn [hstep snd]. split.
@@ -375,13 +302,13 @@ Qed.
 
 Theorem hist_refine_exact eps aeps q s k t levels : 0 <= aeps -> hvalid aeps s -> (0 < levels)%nat ->
   exists new parts, snd (hstep eps aeps q (HApply k (OpRefine t levels)) s) = ONew (Some new) /\
-    new = concat parts /\ Forall2 (refine_cell_spec t levels) (hvals (hget s k)) parts.
+    new = concat parts /\ Forall2 (refine_cell_spec t levels) (hget s k) parts.
 Proof.
   intros Ha V Hl. pose proof (hget_accepted aeps s k V) as Acc.
-  destruct (htrans_ok eps aeps q (OpRefine t levels) (hnext s) (hget s k) Ha Hl Acc) as (n & hl & E & (Er & _ & _)).
-  cbn [run_op] in Er. apply refine_some_cells in Er. destruct Er as [_ Er].
-  destruct (refine_exact t levels _ _ (accepted_wf _ _ Acc) Er) as (parts & Ec & F).
-  exists (hvals hl), parts. split; [cbn [hstep]; rewrite E; reflexivity|]. split; assumption.
+  destruct (run_op_ok eps aeps q (OpRefine t levels) (hget s k) Ha Hl Acc) as (new & Er & _ & _).
+  pose proof Er as Er'. cbn [run_op] in Er'. apply refine_some_cells in Er'. destruct Er' as [_ Er'].
+  destruct (refine_exact t levels _ _ (accepted_wf _ _ Acc) Er') as (parts & Ec & F).
+  exists new, parts. split; [cbn [hstep]; rewrite Er; reflexivity|]. split; assumption.
 Qed.
 
 Lemma min_depth_le cells c : In c cells -> (min_depth cells <= cdepth c)%nat.
@@ -397,16 +324,16 @@ Qed.
 
 Theorem hist_uniform_all_at_max eps aeps q s k : 0 <= aeps -> hvalid aeps s ->
   exists new, snd (hstep eps aeps q (HApply k OpUniform) s) = ONew (Some new) /\
-    Forall (fun p => fixed (crect p) = false -> cdepth p = max_depth (hvals (hget s k))) new.
+    Forall (fun p => fixed (crect p) = false -> cdepth p = max_depth (hget s k)) new.
 Proof.
   intros Ha V. pose proof (hget_accepted aeps s k V) as Acc.
-  destruct (htrans_ok eps aeps q OpUniform (hnext s) (hget s k) Ha I Acc) as (n & hl & E & (Er & _ & _)).
-  exists (hvals hl). split; [cbn [hstep]; rewrite E; reflexivity|].
+  destruct (run_op_ok eps aeps q OpUniform (hget s k) Ha I Acc) as (new & Er & _ & _).
+  exists new. split; [cbn [hstep]; rewrite Er; reflexivity|].
   cbn [run_op] in Er. unfold uniform_refinement_depth in Er.
-  destruct (Nat.eqb (max_depth (hvals (hget s k))) (min_depth (hvals (hget s k)))) eqn:D.
+  destruct (Nat.eqb (max_depth (hget s k)) (min_depth (hget s k))) eqn:D.
   - injection Er as <-. apply Nat.eqb_eq in D. apply Forall_forall. intros p Hp _.
     pose proof (max_depth_ge _ _ Hp). pose proof (min_depth_le _ _ Hp). lia.
-  - destruct (uniform_cells (hvals (hget s k))) as [x|] eqn:U; [|discriminate].
+  - destruct (uniform_cells (hget s k)) as [x|] eqn:U; [|discriminate].
     apply mk_allocation_some in Er. subst x.
     apply (uniform_all_at_max _ _ (accepted_wf _ _ Acc) U).
 Qed.
@@ -415,7 +342,7 @@ Lemma accepted_in_quadrant aeps cells : accepted aeps cells -> in_quadrant cells
 Proof. intro H. apply accepted_iff in H. apply H. Qed.
 
 Theorem hist_griddify_aligned eps aeps q s k : 0 <= aeps -> hvalid aeps s ->
-  let cells := hvals (hget s k) in
+  let cells := hget s k in
   let xc := fst (gather_boundaries eps (map crect cells)) in
   let yc := snd (gather_boundaries eps (map crect cells)) in
   exists new, snd (hstep eps aeps q (HApply k OpGriddify) s) = ONew (Some new) /\
@@ -424,9 +351,9 @@ Theorem hist_griddify_aligned eps aeps q s k : 0 <= aeps -> hvalid aeps s ->
       (forall y, In y (interior yc) -> ymin (crect f) < y -> y < ymax (crect f) -> refused_y q y cells f)) new.
 Proof.
   intros Ha V cells xc yc. pose proof (hget_accepted aeps s k V) as Acc. fold cells in Acc.
-  destruct (htrans_ok eps aeps q OpGriddify (hnext s) (hget s k) Ha I Acc) as (n & hl & E & (Er & _ & _)).
-  exists (hvals hl). split; [cbn [hstep]; rewrite E; reflexivity|].
-  cbn [run_op] in Er. unfold griddify in Er. fold cells in Er.
+  destruct (run_op_ok eps aeps q OpGriddify cells Ha I Acc) as (new & Er & _ & _).
+  exists new. split; [cbn [hstep]; fold cells; rewrite Er; reflexivity|].
+  cbn [run_op] in Er. unfold griddify in Er.
   destruct (griddify_cells eps q cells) as [x|] eqn:G; [|discriminate].
   apply mk_allocation_some in Er. subst x.
   apply (griddify_aligned eps q cells _ (accepted_wf _ _ Acc) (accepted_in_quadrant _ _ Acc) G).
@@ -442,18 +369,24 @@ Theorem reach_mbr_iff_changes eps aeps q cells ops k t levels :
   0 <= aeps -> accepted aeps cells -> Forall hop_admissible ops -> (0 < levels)%nat ->
   let s := fst (run_hist eps aeps q ops (hinit cells)) in
   exists new, snd (hstep eps aeps q (HApply k (OpRefine t levels)) s) = ONew (Some new) /\
-    (snd (hstep eps aeps q (HMbr k t) s) = OBool true <-> new <> hvals (hget s k)).
+    (snd (hstep eps aeps q (HMbr k t) s) = OBool true <-> new <> hget s k).
 Proof.
   intros Ha Acc Hops Hl s. apply hist_mbr_iff_changes; [exact Ha| |exact Hl].
   apply reach_valid; assumption.
 Qed.
 
-(* non-vacuity: the history of the two seeded memo patches, on the model *)
+(* non-vacuity: the history of the two seeded memo patches, on the model; the last assignment is made through the
+   derived allocation and is observed in both (shared Rectangle object) *)
 Example ex_history :
   hist (qc 1 1048576) (qc 1 1024) (qc 1 100) ex_cells
-       [HMbr 0 (qc 1 2); HSetFixed 0 (qc 1 1) (qc 1 1) true; HApply 0 (OpRefine (qc 1 2) 1); HMbr 0 (qc 1 2);
-        HSetFixed 1 (qc 1 1) (qc 1 1) false; HMbr 0 (qc 1 2)] =
+       [HMbr 0 (qc 1 2); HSetFixed 0 (qc 1 1) (qc 1 1) true [[(qc 1 1, qc 1 1); (qc 3 1, qc 1 1)]];
+        HApply 0 (OpRefine (qc 1 2) 1); HMbr 0 (qc 1 2);
+        HSetFixed 1 (qc 1 1) (qc 1 1) false [[(qc 3 1, qc 1 1)]; [(qc 3 1, qc 1 1)]]; HMbr 0 (qc 1 2);
+        HSetFixed 1 (qc 1 1) (qc 1 1) true [[(qc 3 1, qc 1 1)]; [(qc 1 1, qc 1 1); (qc 3 1, qc 1 1)]]; HMbr 0 (qc 1 2);
+        HSetFixed 1 (qc 1 1) (qc 1 1) true [[(qc 1 1, qc 1 1)]; [(qc 1 1, qc 1 1); (qc 3 1, qc 1 1)]]] =
   Some [OBool true; OFixed [[(qc 1 1, qc 1 1); (qc 3 1, qc 1 1)]];
         ONew (Some (map (fun c => cset_fixed true c) ex_cells)); OBool false;
-        OFixed [[(qc 3 1, qc 1 1)]; [(qc 3 1, qc 1 1)]]; OBool true].
+        OFixed [[(qc 3 1, qc 1 1)]; [(qc 3 1, qc 1 1)]]; OBool true;
+        OFixed [[(qc 3 1, qc 1 1)]; [(qc 1 1, qc 1 1); (qc 3 1, qc 1 1)]]; OBool true;
+        OImpossible].
 Proof. vm_compute. reflexivity. Qed.
